@@ -9,7 +9,7 @@
    Only statements; every proof is `exact <lemma>` (proofs live in the files imported below). *)
 From Coq Require Import List NArith Bool Arith String.
 Import ListNotations.
-From MT Require Import Arith SweepModel Layout CliModel CliProofs GenCli GenCliIdx DispatchProofs LayoutProofs.
+From MT Require Import Arith SweepModel Layout CliModel CliProofs GenCli GenCliIdx DispatchSpec CliDispatchProofs LayoutProofs.
 
 (* the reader inverts every well-formed rendering *)
 Theorem C13_parse : forall (items : list item) (final_newline : bool),
